@@ -12,13 +12,6 @@ def c06(entry, clause, quals, what):
         add('C06', 'C06/%s/%s%s' % (entry, clause, '/' + q if q else ''), what)
 
 # defects that remain on the current /repo (the others were repaired by fix: commits and are in known_findings.json 'fixed')
-for ent in ('SIS_heterogeneous_pairwise', 'SIS_heterogeneous_pairwise_from_graph'):
-    c06(ent, 'accept:ValueError', ['full=1'],
-        "%s(return_full_data=True) raises ValueError (operands could not be broadcast together): IkIl = NkNl - SkSl - SkIl - SkIl.T subtracts "
-        "(kcount,kcount,tcount) arrays from the (kcount,kcount) array NkNl and transposes all three axes (analytic.py:2938)" % ent)
-c06('SIS_heterogeneous_pairwise_from_graph', 'row0:IkIl', ['full=1/regular=1'],
-    "SIS_heterogeneous_pairwise_from_graph(return_full_data=True) on a regular graph (one degree class): the same expression broadcasts and returns a "
-    "(tcount,1,tcount) array in the IkIl slot, not the I-I pair series (analytic.py:2938)")
 for ent in ('SIS_super_compact_pairwise', 'SIS_super_compact_pairwise_from_graph'):
     c06(ent, 'nan', ['regular=1'], "%s returns NaN on a regular graph: the closure divides by <k^2>-<k>^2 = 0 (analytic.py:3583)" % ent)
 for ent in ('SIS_effective_degree', 'SIS_effective_degree_from_graph'):
@@ -38,10 +31,6 @@ for cl in ('range', 'accept:ZeroDivisionError'):
     c06('Attack_rate_discrete_from_graph', cl, ['iso=1/p1=1'],
         "Attack_rate_discrete_from_graph with p=1 on a graph with isolated nodes returns NaN (or raises ZeroDivisionError): once theta reaches 0 the degree-0 term "
         "k*Pk[k]*Sk0[k]*x**(k-1) of psihatPrime is 0*inf (analytic.py:4739)")
-for ent in ('SIS_homogeneous_pairwise_from_graph', 'SIR_homogeneous_pairwise_from_graph', 'SIS_homogeneous_pairwise', 'SIR_homogeneous_pairwise'):
-    c06(ent, 'accept:EoNError', ['II0=1'],
-        "%s rejects a consistent state without I-I (and, SIR, without R) pairs by floating-point rounding: SS0+2*SI0 > n*N with n = sum(k*Pk[k]) a rounded float, e.g. 14 > 13.999999999999998 (analytic.py:2038/2128)" % ent)
-
 extra = os.path.join(V, 'tools', 'ic_findings_c14.json')
 if os.path.exists(extra):
     F += json.load(open(extra))
